@@ -96,7 +96,24 @@ func (rt *runtime) cmplFunctionDeclaration(list []*nodeFunctionLiteral) {
 		if !stash.hasBinding(name) {
 			stash.createBinding(name, eval, value)
 		} else {
-			// TODO 10.5.5.e
+			if global, ok := stash.(*objectStash); ok && global == rt.globalStash {
+				// 10.5 step 5.e: over an existing property of the global object the
+				// declaration makes a fresh writable, enumerable data property, or
+				// fails when it may not.
+				if existing := rt.globalObject.getProperty(name); existing != nil {
+					_, accessor := existing.value.(propertyGetSet)
+					switch {
+					case existing.configurable():
+						mode := propertyMode(0o110)
+						if eval {
+							mode = 0o111
+						}
+						rt.globalObject.defineOwnProperty(name, property{value: Value{}, mode: mode}, true)
+					case accessor || !existing.writable() || !existing.enumerable():
+						panic(rt.panicTypeError("cannot declare function '%s' over a non-configurable property", name))
+					}
+				}
+			}
 			stash.setBinding(name, value, false) // TODO strict
 		}
 	}
